@@ -55,12 +55,14 @@ Check (C06_udp_emit_ignores_old_bytes : forall (sum_ok : list Z -> bool) sum_fil
 
 Check (C06_udp_roundtrip : forall sum_ok sum_fill is_v4 tx rx r payload b,
   udp_cksum_link sum_ok sum_fill -> udp_wf r payload = true ->
+  (rx = true -> tx = true \/ is_v4 = true) ->
   blen b = udp_buffer_len r payload ->
   exists bs, udp_emit sum_fill tx r payload b = Ok bs /\ blen bs = udp_buffer_len r payload /\
              udp_parse sum_ok is_v4 rx bs = Ok r /\ udp_payload bs = Ok payload).
 
 Check (C06_udp_reparse : forall sum_ok sum_fill is_v4 tx rx bs r p,
   udp_cksum_link sum_ok sum_fill -> bytes_ok bs = true ->
+  (rx = true -> tx = true \/ is_v4 = true) ->
   udp_parse sum_ok is_v4 rx bs = Ok r -> udp_payload bs = Ok p ->
   udp_wf r p = true /\
   forall b, blen b = udp_buffer_len r p ->
